@@ -69,6 +69,8 @@ pub struct StackS { _p: u8 }
 impl StackS {
     #[verifier::external_body]
     pub fn truncate(&mut self, size: usize) { unimplemented!() }
+    #[verifier::external_body]
+    pub fn clear(&mut self) { unimplemented!() }
 }
 //@struct file=yarel/src/object.rs name=CallFrame map "*const u8" => "usize"
 //@struct file=yarel/src/object.rs name=ExcHandler map "*const u8" => "usize"
@@ -76,7 +78,7 @@ impl ExcHandler {
     #[verifier::external_body]
     fn has_catch_block(&self) -> bool { unimplemented!() }
 }
-//@struct file=yarel/src/object.rs name=ObjFiber keepfields=caller,stack,frames,return_ip,return_value map "*const u8" => "usize" map "Stack<Value, STACK_MAX>" => "StackS" addfield "pub ghost closed_from: int" addfield "pub ghost has_handler: bool"
+//@struct file=yarel/src/object.rs name=ObjFiber keepfields=caller,stack,frames,return_ip,return_value,error_ip map "*const u8" => "usize" map "Stack<Value, STACK_MAX>" => "StackS" addfield "pub ghost closed_from: int" addfield "pub ghost has_handler: bool"
 impl ObjFiber {
     //@fn file=yarel/src/object.rs path=ObjFiber::has_finished ret=r
     //@  ensures r == (self.frames@.len() == 0)
@@ -217,6 +219,15 @@ impl Vm {
     //@  ensures final(self).coherent()
     //@  at body.start proof { self.active.closed_from = 0x7fff_ffff_ffff_ffff; }
     //@  assert @discarded_slots_closed before_stmt "self.active_fiber_mut().stack.truncate(init_stack_size)" self.active.closed_from <= init_stack_size
+    //@end
+    // End of a failed run (Vm::runtime_error -> reset_stack): the whole value stack of the active fiber is discarded;
+    // closures created by the failed snippet may live on in globals.
+    //@fn file=yarel/src/vm.rs path=Vm::reset_stack props=C06,C15
+    //@  subst "if let Some(fiber) = self.fiber.as_ref() { let mut borrowed_fiber = fiber.borrow_mut();" => "if self.fiber.is_some() { let borrowed_fiber = self.active_fiber_mut();"
+    //@  requires old(self).coherent()
+    //@  ensures final(self).coherent()
+    //@  at body.start proof { self.active.closed_from = 0x7fff_ffff_ffff_ffff; }
+    //@  assert @discarded_slots_closed before_stmt "borrowed_fiber.stack.clear()" borrowed_fiber.closed_from <= 0
     //@end
     // CloseUpvalue: the top slot is closed, then popped.
     //@fn file=yarel/src/vm.rs path=Vm::close_upvalue_impl props=C06
